@@ -61,6 +61,8 @@ CharEscape(s, i) ==
                     THEN [ok |-> TRUE, u |-> 4096 * HexVal(s[i + 1]) + 256 * HexVal(s[i + 2]) + 16 * HexVal(s[i + 3]) + HexVal(s[i + 4]),
                           i |-> i + 5]
                     ELSE PErr(TRUE)
+      [] c = 36 -> [ok |-> TRUE, u |-> 36, i |-> i + 1]                     \* \$ : "$" is an IdentifierPart, so ES5.1 taken literally
+                                                                            \* forbids it; corrected in ES2015 (SyntaxCharacter)
       [] OTHER -> IF IsIdPartA(c) THEN PErr(TRUE)                           \* IdentityEscape: not an IdentifierPart
                   ELSE [ok |-> TRUE, u |-> c, i |-> i + 1]
 
@@ -113,6 +115,15 @@ QLazy(s, j, mn, mx) ==
     IF mx # -1 /\ mx < mn THEN [k |-> "err", lax |-> FALSE]                 \* 15.10.2.5: max finite and less than min
     ELSE IF RxAt(s, j) = 63 THEN [k |-> "ok", min |-> mn, max |-> mx, greedy |-> FALSE, i |-> j + 1]
     ELSE [k |-> "ok", min |-> mn, max |-> mx, greedy |-> TRUE, i |-> j]
+(* the engine does not take a repeat count with a leading zero ({01} {1,02}) as a quantifier *)
+LeadingZeroBrace(s, i) ==
+    D("D10_quantifier_leading_zero_literal") /\ RxAt(s, i) = 123 /\
+    LET j1 == SpanDigits(s, i + 1)
+        lz(a, b) == b - a >= 2 /\ s[a] = 48                                 \* digits s[a..b-1] with a leading zero
+        j2 == IF RxAt(s, j1) = 44 THEN SpanDigits(s, j1 + 1) ELSE j1
+    IN  /\ j1 > i + 1
+        /\ RxAt(s, j2) = 125
+        /\ (lz(i + 1, j1) \/ (RxAt(s, j1) = 44 /\ lz(j1 + 1, j2)))
 ParseQuant(s, i) ==
     LET c == RxAt(s, i) IN
     CASE c = 42 -> QLazy(s, i + 1, 0, -1)
@@ -120,7 +131,8 @@ ParseQuant(s, i) ==
       [] c = 63 -> QLazy(s, i + 1, 0, 1)
       [] c = 123 ->
            LET j1 == SpanDigits(s, i + 1) IN
-           IF j1 = i + 1 THEN [k |-> "err", lax |-> TRUE]                   \* "{" is not a PatternCharacter
+           IF LeadingZeroBrace(s, i) THEN [k |-> "none"]                    \* the engine reads "{01}" as literal text
+           ELSE IF j1 = i + 1 THEN [k |-> "err", lax |-> TRUE]              \* "{" is not a PatternCharacter
            ELSE LET mn == DecVal(s, i + 1, j1 - 1) IN
                 IF RxAt(s, j1) = 125 THEN QLazy(s, j1 + 1, mn, mn)           \* {n}
                 ELSE IF RxAt(s, j1) # 44 THEN [k |-> "err", lax |-> TRUE]
@@ -191,7 +203,7 @@ GoGroup(s, i, nc) ==                              \* s[i] = "(", s[i+1] = "?"
             LET d == ParseDisj(s, k, nc2) IN
             IF ~d.ok THEN d ELSE IF RxAt(s, d.i) # 41 THEN PErr(FALSE)
             ELSE [ok |-> TRUE, n |-> [k |-> "grp", cap |-> cap, d |-> d.n], i |-> d.i + 1, nc |-> d.nc]
-    IN  IF j > i + 2 /\ RxAt(s, j) = 41
+    IN  IF RxAt(s, j) = 41                                                  \* also the empty flag group "(?)"
         THEN [ok |-> TRUE, n |-> [k |-> "grp", cap |-> 0, d |-> [k |-> "alt", alts |-> <<<<>>>>]], i |-> j + 1, nc |-> nc]
         ELSE IF j > i + 2 /\ RxAt(s, j) = 58 THEN body(j + 1, nc, 0)
         ELSE IF nm > 0 /\ SpanName(s, nm) > nm /\ RxAt(s, SpanName(s, nm)) = 62 THEN body(SpanName(s, nm) + 1, nc + 1, nc + 1)
@@ -214,6 +226,8 @@ ParseAtom(s, i, nc) ==
                 ELSE [ok |-> TRUE, n |-> [k |-> "grp", cap |-> nc + 1, d |-> d.n], i |-> d.i + 1, nc |-> d.nc]
       [] c = 91 -> LET r == ParseClass(s, i + 1) IN IF ~r.ok THEN r ELSE [ok |-> TRUE, n |-> r.n, i |-> r.i, nc |-> nc]
       [] c = 92 -> LET r == ParseAtomEscape(s, i + 1) IN IF ~r.ok THEN r ELSE [ok |-> TRUE, n |-> r.n, i |-> r.i, nc |-> nc]
+      [] c = 123 /\ LeadingZeroBrace(s, i) -> [ok |-> TRUE, n |-> [k |-> "chr", u |-> c], i |-> i + 1, nc |-> nc]
+      [] c = 125 /\ D("D10_quantifier_leading_zero_literal") -> [ok |-> TRUE, n |-> [k |-> "chr", u |-> c], i |-> i + 1, nc |-> nc]
       [] c \in {93, 123, 125} -> PErr(TRUE)                                  \* ] { } are not PatternCharacters
       [] c \in RxSyntaxChars -> PErr(FALSE)                                  \* * + ? : nothing to repeat
       [] OTHER -> [ok |-> TRUE, n |-> [k |-> "chr", u |-> c], i |-> i + 1, nc |-> nc]
@@ -232,6 +246,12 @@ HasLook(n) ==
       [] n.k = "q" -> HasLook(n.a)
       [] OTHER -> FALSE
 
+RECURSIVE HasBigRepeat(_)
+HasBigRepeat(n) ==                                \* a repeat count above the engine's limit of 1000
+    CASE n.k = "alt" -> \E a \in 1..Len(n.alts) : \E t \in 1..Len(n.alts[a]) : HasBigRepeat(n.alts[a][t])
+      [] n.k \in {"grp", "look"} -> HasBigRepeat(n.d)
+      [] n.k = "q" -> n.min > 1000 \/ n.max > 1000 \/ HasBigRepeat(n.a)
+      [] OTHER -> FALSE
 RECURSIVE HasEmptyClass(_)
 HasEmptyClass(n) ==                               \* [] or [^]
     CASE n.k = "alt" -> \E a \in 1..Len(n.alts) : \E t \in 1..Len(n.alts[a]) : HasEmptyClass(n.alts[a][t])
@@ -446,7 +466,8 @@ RxNew(src, flags) ==                            \* for RxClassify(src, flags) = 
 (* "some error" (the property does not fix the class for untranslatable patterns)              *)
 RxConstruct(src, flags) ==
     LET c == RxClassify(src, flags) IN
-    IF c = "ok" THEN (IF D("D10_empty_class_rejected") /\ HasEmptyClass(RxParse(src).n) THEN [thr |-> "SyntaxError"]
+    IF c = "ok" THEN (IF (D("D10_empty_class_rejected") /\ HasEmptyClass(RxParse(src).n))
+                         \/ (D("D10_repeat_count_limit") /\ HasBigRepeat(RxParse(src).n)) THEN [thr |-> "SyntaxError"]
                       ELSE [thr |-> "", X |-> RxNew(src, flags)])
     ELSE IF c = "unsupported" THEN [thr |-> "Unsupported"]
     ELSE [thr |-> "SyntaxError"]                                            \* 15.10.4.1
@@ -471,10 +492,20 @@ OScan(s, i) ==
     ELSE IF s[i] = 40 THEN (LET g == OGroup(s, i + 1) IN g.bad \/ OScan(s, g.i))
     ELSE IF s[i] = 91 THEN (LET b == OBracket(s, i + 1) IN b.bad \/ OScan(s, b.i))
     ELSE OScan(s, i + 1)
+RECURSIVE OErr(_, _, _)
+OErr(s, i, cls) ==                                \* it also reports \1..\7 (single digit), \8, \9 and (?= (?! itself
+    IF i > Len(s) THEN FALSE
+    ELSE IF s[i] = 92
+    THEN LET c == RxAt(s, i + 1)  c2 == RxAt(s, i + 2) IN
+         IF (c >= 49 /\ c <= 55 /\ ~(c2 >= 48 /\ c2 <= 55)) \/ c \in {56, 57} THEN TRUE ELSE OErr(s, i + 2, cls)
+    ELSE IF cls THEN OErr(s, i + 1, s[i] # 93)
+    ELSE IF s[i] = 91 THEN OErr(s, i + 1, TRUE)
+    ELSE IF s[i] = 40 /\ RxAt(s, i + 1) = 63 /\ RxAt(s, i + 2) \in {61, 33} THEN TRUE
+    ELSE OErr(s, i + 1, FALSE)
 (* the constructor reached through new RegExp ("ctor") or a literal ("lit") *)
 RxConstructF(src, flags, form) ==
     LET k == RxConstruct(src, flags) IN
-    IF k.thr = "SyntaxError" /\ form = "ctor" /\ D("D10_malformed_pattern_typeerror") /\ RxFlags(flags).ok /\ OScan(src, 1)
+    IF k.thr = "SyntaxError" /\ form = "ctor" /\ D("D10_malformed_pattern_typeerror") /\ RxFlags(flags).ok /\ (OScan(src, 1) \/ OErr(src, 1, FALSE))
     THEN [thr |-> "TypeError"] ELSE k
 RxCtx(X, S) == [inp |-> S, ic |-> X.ic, ml |-> X.ml]
 
@@ -497,13 +528,38 @@ RxShift(f, d) ==
     ELSE [ok |-> TRUE, s |-> f.s + d, e |-> f.e + d,
           cap |-> [j \in 1..Len(f.cap) |-> IF f.cap[j][1] = -1 THEN f.cap[j] ELSE <<f.cap[j][1] + d, f.cap[j][2] + d>>]]
 
+(* The implementation on a subject with non-ASCII characters (named deviation only): lastIndex is a   *)
+(* BYTE offset b into the UTF-8 form.  The engine searches the byte slice from b; when b falls inside  *)
+(* a character every leftover byte of it is read as one U+FFFD; offsets found are added back as bytes; *)
+(* "index" is the number of code units of the byte prefix, an incomplete character counting one unit   *)
+(* per byte.                                                                                           *)
+U8W(u) == IF u < 128 THEN 1 ELSE IF u < 2048 THEN 2 ELSE 3
+RECURSIVE CharsBefore(_, _, _, _)
+CharsBefore(S, b, k, off) ==                      \* <<k, off>>: the k whole characters (off bytes) that end at or before b
+    IF k < Len(S) /\ off + U8W(S[k + 1]) <= b THEN CharsBefore(S, b, k + 1, off + U8W(S[k + 1])) ELSE <<k, off>>
+RxExecBytes(X, S, b, failed) ==
+    LET kb == CharsBefore(S, b, 0, 0)
+        k == kb[1]
+        r == b - kb[2]                                                      \* bytes of character k+1 before b
+        nf == IF r > 0 THEN U8W(S[k + 1]) - r ELSE 0                        \* its bytes after b: invalid UTF-8
+        Tz == [j \in 1..nf |-> 65533] \o SubSeq(S, k + 1 + (IF r > 0 THEN 1 ELSE 0), Len(S))
+        f == RxFindFrom(RxCtx(X, Tz), X.P, 0)
+        bo(p) == b + (IF p <= nf THEN p ELSE nf + Utf8Len(SubSeq(Tz, nf + 1, p)))
+        idx == IF f.s < nf THEN k + r + f.s ELSE k + (IF r > 0 THEN 1 ELSE 0) + (f.s - nf)
+    IN  IF ~f.ok THEN failed
+        ELSE [R |-> [X EXCEPT !.li = IntV(bo(f.e))], f |-> f,
+              v |-> [t |-> "match", index |-> IntV(idx), input |-> StrV(S),
+                     caps |-> <<StrV(RxSub(Tz, f.s, f.e))>> \o [j \in 1..Len(f.cap) |-> RxCapVal(Tz, f.cap[j])]]]
+
 (* 15.10.6.2 RegExp.prototype.exec: [R |-> the object after, v |-> result, f |-> the match] *)
 RxExec(X, S) ==
     LET len == Len(S)
         li == ToIntegerN(ToNumberPrim(X.li))                                \* steps 4-5
         i == IF X.g THEN li ELSE I(0)                                       \* steps 6-7
         failed == [R |-> [X EXCEPT !.li = IntV(0)], v |-> Null, f |-> RxFail]   \* step 9.a
-    IN  IF NLt0(i) \/ NumCmp(i, I(len)) > 0 THEN failed
+        bytes == D("D10_lastindex_byte_offset") /\ X.g /\ \E j \in 1..len : S[j] >= 128
+    IN  IF bytes THEN (IF NLt0(i) \/ NumCmp(i, I(Utf8Len(S))) > 0 THEN failed ELSE RxExecBytes(X, S, IntOf(i), failed))
+        ELSE IF NLt0(i) \/ NumCmp(i, I(len)) > 0 THEN failed
         ELSE LET i0 == IntOf(i)
                  f == IF D("D10_exec_matches_on_slice")
                       THEN RxShift(RxFindFrom(RxCtx(X, RxSub(S, i0, len)), X.P, 0), i0)
@@ -549,7 +605,7 @@ RxStrMatch(X, S) ==
          IN  IF Len(fs) = 0
              THEN [R |-> [X EXCEPT !.li = IntV(0)],
                    v |-> IF D("D10_match_global_no_match_undefined") THEN Undef ELSE Null]       \* step 8.g
-             ELSE [R |-> [X EXCEPT !.li = IF D("D10_match_global_lastindex_end") THEN IntV(RxOff(S, fs[Len(fs)].e)) ELSE IntV(0)],
+             ELSE [R |-> [X EXCEPT !.li = IF D("D10_match_global_lastindex_end") THEN IntV(Utf8Len(RxSub(S, 0, fs[Len(fs)].e))) ELSE IntV(0)],   \* a byte offset
                    v |-> ArrV([j \in 1..Len(fs) |-> StrV(RxSub(S, fs[j].s, fs[j].e))])]
 
 (* 15.5.4.11 Table 22: replacement text.  m = number of captures.            *)
@@ -608,7 +664,7 @@ RxStrReplace(X, S, rv) ==
               ELSE IF D("D10_replace_global_findall") THEN GoAll(X, S) ELSE es.fs
         r == RxReplLoop(S, fs, 1, 0, rv, [s |-> <<>>, log |-> <<>>])
         li == IF ~X.g THEN X.li                                             \* lastIndex is not mentioned for this case
-              ELSE IF D("D10_replace_global_lastindex") THEN (IF Len(fs) = 0 THEN X.li ELSE IntV(RxOff(S, fs[Len(fs)].e)))
+              ELSE IF D("D10_replace_global_lastindex") THEN (IF Len(fs) = 0 THEN X.li ELSE IntV(Utf8Len(RxSub(S, 0, fs[Len(fs)].e))))   \* a byte offset
               ELSE IntV(0)                                                  \* "in the same manner as in match, including the update of lastIndex"
     IN  [R |-> [X EXCEPT !.li = li], v |-> ArrV(<<StrV(r.s), ArrV(r.log)>>)]
 
